@@ -49,6 +49,11 @@ type SchedConfig struct {
 	AtPark float64 `json:"at_park,omitempty"`
 	// YieldPark is the probability that a Yield point is a scheduling point.
 	YieldPark float64 `json:"yield_park,omitempty"`
+	// YieldSites lists the prefixes of the Yield sites this back-end treats as
+	// scheduling points; every other Yield site is ignored (the yield points
+	// inside the evaluator belong to the spin back-end, and how often they
+	// are reached is not a function of the seed).
+	YieldSites []string `json:"yield_sites,omitempty"`
 	MaxSteps  int     `json:"max_steps,omitempty"`
 
 	// Choices, when non-nil, replaces every decision of the policy: the
@@ -373,6 +378,15 @@ func (s *Sched) Park(kind Kind, site, detail string) {
 // ---- simhook.Simulator ----
 
 func (s *Sched) Yield(site string) {
+	ok := false
+	for _, p := range s.cfg.YieldSites {
+		if strings.HasPrefix(site, p) {
+			ok = true
+		}
+	}
+	if !ok {
+		return
+	}
 	t := s.cur()
 	if t == nil {
 		return
